@@ -53,6 +53,13 @@ class V(tuple):
     def __new__(cls, name, args=()):
         return tuple.__new__(cls, (name, tuple(args)))
 
+    def __deepcopy__(self, memo):
+        import copy
+        return V(self[0], tuple(copy.deepcopy(a, memo) for a in self[1]))
+
+    def __reduce__(self):
+        return (V, (self[0], self[1]))
+
     @property
     def name(self):
         return self[0]
@@ -91,6 +98,15 @@ class HMap(dict):
 
 INT_BITS = {"u8": (8, False), "u16": (16, False), "u32": (32, False), "u64": (64, False), "usize": (64, False), "u128": (128, False),
             "i8": (8, True), "i16": (16, True), "i32": (32, True), "i64": (64, True), "isize": (64, True), "i128": (128, True)}
+
+
+CHAR_PREDICATES = {
+    "is_ascii_alphanumeric": lambda c: c.isascii() and c.isalnum(), "is_ascii_alphabetic": lambda c: c.isascii() and c.isalpha(),
+    "is_ascii_digit": lambda c: c in "0123456789", "is_ascii_lowercase": lambda c: "a" <= c <= "z", "is_ascii_uppercase": lambda c: "A" <= c <= "Z",
+    "is_ascii_whitespace": lambda c: c in " \t\n\r\x0c", "is_ascii_punctuation": lambda c: c.isascii() and not c.isalnum() and not c.isspace() and c.isprintable(),
+    "is_alphanumeric": lambda c: c.isalnum(), "is_alphabetic": lambda c: c.isalpha(), "is_numeric": lambda c: c.isnumeric(),
+    "is_whitespace": lambda c: c.isspace(), "is_lowercase": lambda c: c.islower(), "is_uppercase": lambda c: c.isupper(),
+}
 
 
 class BMap(HMap):
@@ -350,9 +366,10 @@ class Interp:
                 import math
                 return {"==": lambda: a == b, "!=": lambda: a != b, "<": lambda: a < b, "<=": lambda: a <= b, ">": lambda: a > b,
                         ">=": lambda: a >= b, "+": lambda: a + b, "-": lambda: a - b, "*": lambda: a * b,
-                        "/": lambda: (a / b) if isinstance(a, float) or isinstance(b, float) else int(a / b),
+                        "/": lambda: (a / b) if isinstance(a, float) or isinstance(b, float) else (abs(a) // abs(b)) * (1 if (a >= 0) == (b >= 0) else -1),
                         "%": lambda: math.fmod(a, b) if isinstance(a, float) or isinstance(b, float) else int(math.fmod(a, b)),
-                        "^": lambda: a ^ b, "&": lambda: a & b, "|": lambda: a | b}[op]()
+                        "^": lambda: a ^ b, "&": lambda: a & b, "|": lambda: a | b,
+                        "<<": lambda: a << b if 0 <= b < 128 else None, ">>": lambda: a >> b if 0 <= b < 128 else None}[op]()
             except (KeyError, TypeError, ZeroDivisionError, ValueError):
                 raise Undecided("binary %s" % op)
         if k == "Tup":
@@ -615,6 +632,22 @@ class Interp:
                 if n["m"] == "pop" and not n["args"]:
                     env[r["res"]] = cur[:-1]
                     return some(cur[-1]) if cur else NONE
+        if n["m"] in ("replace", "take", "insert") and "Option" in str(n.get("callee", "")) and len(n["args"]) <= 1:
+            # Option::take / replace / insert on a place (a local or a field of a struct): the place changes, the old value returns
+            r = n["recv"]
+            while r["k"] in ("Ref",) or (r["k"] == "Un" and r["op"] == "*"):
+                r = r["e"]
+            newv = NONE if n["m"] == "take" else some(self.ev(n["args"][0], env))
+            if r["k"] == "Path" and r.get("rk") == "Local" and r["res"] in env and isinstance(env[r["res"]], V):
+                old = env[r["res"]]
+                env[r["res"]] = newv
+                return old if n["m"] != "insert" else newv.args[0]
+            if r["k"] == "Field":
+                base = self.ev(r["e"], env)
+                if isinstance(base, dict) and isinstance(base.get(r["name"]), V):
+                    old = base[r["name"]]
+                    base[r["name"]] = newv
+                    return old if n["m"] != "insert" else newv.args[0]
         if n["m"] in ("push", "push_str") and len(n["args"]) == 1:
             r = n["recv"]
             while r["k"] in ("Ref",) or (r["k"] == "Un" and r["op"] == "*"):
@@ -674,8 +707,45 @@ class Interp:
                     return V("Result::Ok", [recv == "true"]) if recv in ("true", "false") else V("Result::Err", [Opaque("ParseBoolError")])
             except ValueError:
                 return V("Result::Err", [Opaque("ParseFloatError")])
+        if isinstance(recv, str) and len(n["args"]) == 1 and m in ("split_at", "split_once", "rsplit_once"):
+            a = self.ev(n["args"][0], env)
+            if m == "split_at" and isinstance(a, int) and not isinstance(a, bool):
+                b_ = recv.encode()
+                if 0 <= a <= len(b_):
+                    try:
+                        return (b_[:a].decode(), b_[a:].decode())
+                    except UnicodeDecodeError:
+                        raise Undecided("split_at %d inside a character of %r (a panic in the analysed code)" % (a, recv))
+                raise Undecided("split_at %d beyond the end of %r (a panic in the analysed code)" % (a, recv))
+            if m in ("split_once", "rsplit_once") and isinstance(a, str) and a:
+                i_ = recv.find(a) if m == "split_once" else recv.rfind(a)
+                return some((recv[:i_], recv[i_ + len(a):])) if i_ >= 0 else NONE
+        if isinstance(recv, str) and not n["args"] and len(recv) == 1 and m in CHAR_PREDICATES:
+            return CHAR_PREDICATES[m](recv)
         if isinstance(recv, str) and len(n["args"]) == 1 and m in ("trim_matches", "trim_start_matches", "trim_end_matches", "strip_prefix", "strip_suffix", "split", "find", "rfind"):
             a = self.ev(n["args"][0], env)
+            if isinstance(a, Closure) and m in ("split", "trim_matches", "trim_start_matches", "trim_end_matches", "find"):
+                # the pattern is a predicate on characters
+                hit = [self._bool(self.apply(a, [ch]), n) for ch in recv]
+                if m == "split":
+                    out, cur = [], ""
+                    for ch, h_ in zip(recv, hit):
+                        if h_:
+                            out.append(cur)
+                            cur = ""
+                        else:
+                            cur += ch
+                    return out + [cur]
+                if m == "find":
+                    return some(len(recv[:hit.index(True)].encode())) if True in hit else NONE
+                lo, hi = 0, len(recv)
+                if m in ("trim_matches", "trim_start_matches"):
+                    while lo < hi and hit[lo]:
+                        lo += 1
+                if m in ("trim_matches", "trim_end_matches"):
+                    while hi > lo and hit[hi - 1]:
+                        hi -= 1
+                return recv[lo:hi]
             if isinstance(a, str) and a:
                 if m == "trim_matches":
                     r_ = recv
@@ -801,6 +871,8 @@ class Interp:
                 m in ("map", "filter", "filter_map", "find", "find_map", "any", "all", "position", "for_each", "rev", "enumerate", "count", "take_while", "skip_while", "map_while", "flat_map", "collect", "zip", "fold", "sum"):
             # an integer range used as an iterator
             recv = list(range(recv[1], recv[2] + (1 if recv[3] else 0)))
+        if m in ("iter", "into_iter", "iter_mut") and isinstance(recv, V) and recv.name in ("Option::Some", "Option::None") and not n["args"]:
+            return [recv.args[0]] if recv.name == "Option::Some" else []       # an Option iterates over zero or one item
         if m in ("is_some", "is_none") and isinstance(recv, V) and not n["args"]:
             return (recv.name == "Option::Some") == (m == "is_some")
         if m in ("is_ok", "is_err") and isinstance(recv, V) and not n["args"]:
@@ -819,10 +891,18 @@ class Interp:
                 opn = m.split("_", 1)[1]
                 try:
                     val = {"add": lambda: recv + a, "sub": lambda: recv - a, "mul": lambda: recv * a, "div": lambda: int(recv / a),
-                           "rem": lambda: int(math.fmod(recv, a))}[opn]()
+                           "rem": lambda: int(math.fmod(recv, a)), "pow": lambda: recv ** a if 0 <= a < 4096 else None}[opn]()
                 except (KeyError, ZeroDivisionError, ValueError):
                     val = None
                 if m.startswith("checked_"):
+                    # None outside the range of the integer type (read off the type of the call: Option<u64> ..)
+                    ty_ = str(n.get("ty", ""))
+                    inner_ = ty_[len("core::option::Option<"):-1] if ty_.startswith("core::option::Option<") else ""
+                    if val is not None and inner_ in INT_BITS:
+                        bits_, signed_ = INT_BITS[inner_]
+                        lo_, hi_ = (-(1 << (bits_ - 1)), (1 << (bits_ - 1)) - 1) if signed_ else (0, (1 << bits_) - 1)
+                        if not (lo_ <= val <= hi_):
+                            val = None
                     return NONE if val is None else some(val)
                 if val is not None:
                     if m.startswith("saturating_") and str(n.get("ty", "")).startswith("u"):
@@ -1271,6 +1351,12 @@ class Interp:
     def crate_call(self, n, args):
         """interpret a call to a function of the analysed crate (bounded depth)"""
         callee = n.get("callee")
+        if self.prog is not None and callee and callee not in self.prog.fns and str(callee).endswith("FromStr::from_str"):
+            # a trait call `T::from_str(s)`: the implementation is chosen by the type it returns (Result<T, _>)
+            ty = str(n.get("ty", ""))
+            impls = [k for k in self.prog.fns if k.endswith("FromStr>::from_str") and k.startswith("<") and k[1:].split(" as ")[0] in ty]
+            if len(impls) == 1:
+                callee = impls[0]
         if self.prog is None or not callee or callee not in self.prog.fns or self.depth > 12:
             return None
         f = self.prog.fns[callee]
